@@ -60,6 +60,11 @@ type c19Archive struct {
 
 func (g *Gen) c19Archive(maxB int) c19Archive {
 	bs := g.Blocks(maxB)
+	if len(bs) > 0 && g.pick(3) == 0 {
+		// a block that occurs twice, early: commands that count or stop on matches see it twice
+		i := g.pick((len(bs) + 1) / 2)
+		bs = append(bs[:i+1:i+1], append([]Blk{bs[i]}, bs[i+1:]...)...)
+	}
 	roots := g.Roots(bs)
 	if g.pick(3) != 0 && len(bs) > 0 { // mostly archives whose roots are among their blocks
 		roots = []cid.Cid{bs[g.pick(len(bs))].C}
@@ -157,8 +162,9 @@ func famC19(g *Gen, o *Out, n int, thorough bool) {
 		// --- filter (and its inverse), both output versions
 		{
 			var sel []cid.Cid
+			all := g.pick(3) == 0
 			for _, b := range a.bs {
-				if g.pick(2) == 0 {
+				if all || g.pick(2) == 0 {
 					sel = append(sel, b.C)
 				}
 			}
